@@ -213,6 +213,12 @@ ConfigsC15x ==
                    !.abort = ab] :
         d \in {3, Inf}, ha \in BOOLEAN, ab \in BOOLEAN }
 
+\* no sleeper configured and a delay of months: the default sleeper gets it in one piece
+HalfYear == 1000000000
+RetsMonths == {Val(300000000)}
+ConfigsC16y == { [Base EXCEPT !.maxAtt = 2, !.rc = TRUE, !.D = HalfYear, !.handler = ha] : ha \in BOOLEAN }
+OutsC16y == {OkOut, Out("exc", T, None)}
+
 \* long runs: a hook that keeps raising, event after event
 ConfigsC15y ==
     { [Base EXCEPT !.maxAtt = 6, !.rc = TRUE, !.bsleep = TRUE, !.handler = ha] : ha \in BOOLEAN }
